@@ -9,6 +9,11 @@ NA = {
 PENDING = "not claimed yet: contracts for this property are still being written (DESIGN.md build order)"
 
 CLAIMED = {
+ "C09": dict(
+   text="Deductive, on the extracted constant templates: validateHeaders is proved (map-building loops and a map-range loop verified for arbitrary iteration order) to reject exactly when some effective required declaration is unsatisfied, with one violation list; the type/format validators are pinned per type and format; the request pipeline checks headers first and reads no body before they passed; lemmas state acceptance/rejection and the 'method declaration replaces service declaration' rule, whose optional-override class is a known finding replayed with httptest; CombineHeaders (what OpenAPI publishes) is verified separately.",
+   design="4 (C09)",
+   note="Trusted: strconv/time/utf8/net/http observers; header names distinct modulo case per level (precondition). Per-route header tables checked on the extraction schema only (bounded). TS validators not decidable here.",
+   technique="contract-based deductive verification of extracted emitted Go (loop invariants over maps, arbitrary map order), lemmas over contracts, z3/cvc5 race"),
  "C19": dict(
    text="Deductive: each rule-to-keyword translator (int32, int64, float, double, string, repeated, map, required) is verified against a contract describing the published keywords, and per kind the property is proved as a lemma over those contracts for ALL values: rule satisfied <=> keywords satisfied by the JSON form (bounds incl. exclusive ones, const, in, lengths, item and pair counts, uniqueness, formats). The exclusive-bound defect found by the check (boolean exclusiveMinimum/Maximum) was repaired by a fix: commit; string-encoded 64-bit kinds, bounds beyond 2^53, untagged string scalars and the untranslated rule kinds are known findings. Violations are replayed with an independent JSON-Schema validator on probe values around every bound.",
    design="4 (C19), appendix E.3",
